@@ -246,7 +246,7 @@ static char* strdup_alloc(const char * str, size_t size, const char* file, size_
 {
     char* result = (char*) cpputest_malloc_location(size, file, line);
     if (result == NULLPTR) return NULLPTR;
-    PlatformSpecificMemCpy(result, str, size);
+    PlatformSpecificMemCpy(result, str, size-1);
     result[size-1] = '\0';
     return result;
 }
@@ -259,8 +259,8 @@ char* cpputest_strdup_location(const char * str, const char* file, size_t line)
 
 char* cpputest_strndup_location(const char * str, size_t n, const char* file, size_t line)
 {
-    size_t length = test_harness_c_strlen(str);
-    length = length < n ? length : n;
+    size_t length = 0;
+    while (length < n && str[length]) length++; /* like strndup: at most n characters of str are looked at */
     length = length + 1;
     return strdup_alloc(str, length, file, line);
 }
